@@ -645,7 +645,21 @@ def check_number_lexemes(run: Run, rule: str, lm: lexmodel.LexModel) -> None:
             continue
         try:
             pre = lexmodel.regex_sim(lm, p, prefix=True)
-        except rx.Unsupported:
+        except rx.Unsupported as exc:
+            # a construct the automata engine does not translate (e.g. a multi-character look-ahead). Not skipped: the regex
+            # CONSTANT is evaluated with the stdlib re module on a fixed family of number texts covering every shape of
+            # repr(int | finite float) - integer, fraction, exponent with either sign, with and without fraction, negative
+            import re as _re
+
+            try:
+                cre = _re.compile(p)
+            except _re.error:
+                raise AnalysisError(f"token regex #{i} {t} {p!r} is not translatable ({exc}) and does not compile") from None
+            family = ["0", "7", "42", "-3", "1.0", "0.5", "123.456", "-0.25", "1e-07", "1e+16", "1.5e-07", "2.5e+16", "-1.5e-07", "-2.5e+16", "1.2345678901234567e-05", "1e+300", "5e-324", "1.7976931348623157e+308"]
+            hit = next((x for x in family if cre.match(x)), None)
+            run.instance(rule, lx.relpath, f"no earlier token regex (#{i} {t}) matches a prefix of a number text (not translatable: {exc}; decided on {len(family)} number texts with re)", ok=hit is None, witness=hit)
+            if hit is not None:
+                run.violation(rule, lx, None, f"token regex #{i} {t} {p} vs number text", f"the number text `{hit}` is matched first by the {t} pattern {p!r}, which is tried before NUMBER: the number is read back as another kind of token")
             continue
         w = rx.search_n([rep, pre, ascii_only], A, lambda v: all(v), need=(0, 1, 2))
         run.instance(rule, lx.relpath, f"no earlier token regex (#{i} {t}) matches a prefix of a number text", ok=w is None, witness=w)
